@@ -23,6 +23,198 @@ def coq_rtree(node):
     return f"(RNode {nl(node['ids'])} {coq_rtree(l)} {coq_rtree(r)})"
 
 
+def account(ck, xr, rec, model, desc, yt, cases, meta, cid):
+    """Statement-level accounting of every recorded build of one real fit (set-level oracle, independent of the Coq model) + the Coq case of the build.
+    Returns, per build, the list of (received, kept, moved, routed validation points) of its leaves in build order."""
+    task, n, refill, f, nv = desc['task'], desc['n'], desc['refill'], desc['f'], desc['nval']
+    out = []
+    for bi, root in enumerate(rec.trees):      # every build: with tree iterations each tree is built 1 + n_tree_iters times
+        Xroot = root['X']
+        lookup = {Xroot[j].numpy().tobytes(): j for j in range(Xroot.shape[0])}
+        Yenc = rec.rfms and None
+        probs = []
+        leaves = xr.leaves_of(root)
+        # the encoded targets the root received: recover from the leaf fits (y rows are aligned iff they match by index)
+        any_refill = False
+        empty_val = False
+        for lf in leaves:
+            rfm = lf['rfm']
+            Xtr, ytr = rfm.rec_train
+            Xva, yva = rfm.rec_val
+            if rfm.rec_empty_val:
+                empty_val = True
+            kept_rows = [lookup.get(Xtr[p].numpy().tobytes()) for p in range(Xtr.shape[0])]
+            if kept_rows != lf['kept']:
+                probs.append(f"leaf train_indices {lf['kept'][:6]}.. are not the rows of the fitted training matrix {kept_rows[:6]}..")
+            cen = rfm.centers
+            if cen.shape != Xtr.shape or not torch.equal(cen.cpu(), Xtr):
+                probs.append('leaf model centers differ from the training rows it was fitted on')
+            nrouted = lf['nval']
+            if not torch.equal(Xva[:nrouted], lf['Xval']):
+                probs.append('leaf validation set does not start with the routed validation points')
+            moved = [lookup.get(Xva[p].numpy().tobytes()) for p in range(nrouted, Xva.shape[0])]
+            if any(m is None for m in moved):
+                probs.append('leaf validation set contains rows that are neither routed validation points nor training samples')
+                moved = [m for m in moved if m is not None]
+            lf['moved'] = moved
+            any_refill |= len(moved) > 0
+            # statement: at most min(shortfall, 20%) moved; none if routed > refill size or single leaf
+            m_recv = len(lf['ids'])
+            if root['kind'] == 'leaf':          # the tree has a single leaf (structural, not the flag the code was passed)
+                exp = 0
+            elif nrouted > refill:
+                exp = 0
+            else:
+                exp = min(refill - nrouted, m_recv // 5)
+            if len(moved) > exp:
+                probs.append(f'leaf with {m_recv} samples and {nrouted} routed validation points moved {len(moved)} samples, at most {exp} are allowed (refill size {refill})')
+            elif len(moved) != exp:
+                # fewer than the rule allows: not a violation of the statement ("at most"); the Coq checker below (a model of the code's rule) will disagree
+                ck.count('leaf moved fewer samples than the refill rule allows')
+            if set(moved) & set(lf['kept']):
+                probs.append(f'samples {sorted(set(moved) & set(lf["kept"]))[:5]} are both centers and leaf validation')
+            if sorted(moved + lf['kept']) != sorted(lf['ids']):
+                probs.append(f'leaf received {m_recv} samples but centers+moved account for {len(moved) + len(lf["kept"])} (dropped or foreign samples)')
+            # targets aligned: y rows of kept/moved must be the encoded targets of the same original rows.
+            lf['y_by_index'] = {j: ytr[p] for p, j in enumerate(kept_rows) if j is not None}
+            for p, j in enumerate(moved):
+                lf['y_by_index'][j] = yva[nrouted + p]
+        # cross-leaf target consistency: with exactly-once (or overlap) the encoded target of index j is unique
+        ymap = {}
+        for lf in leaves:
+            for j, v in lf['y_by_index'].items():
+                if j in ymap and not torch.equal(ymap[j], v):
+                    probs.append(f'sample {j} carries different targets in different leaves')
+                ymap[j] = v
+        if task.startswith('reg'):
+            for j, v in ymap.items():
+                if not torch.equal(v.reshape(-1), yt[j].reshape(-1).float()):
+                    probs.append(f'target of sample {j} is misaligned'); break
+        else:
+            enc = model.class_converter_.labels_to_numerical(yt)
+            for j, v in ymap.items():
+                if not torch.equal(v.reshape(-1), enc[j].reshape(-1)):
+                    probs.append(f'target of sample {j} is misaligned'); break
+        used = [j for lf in leaves for j in lf['kept'] + lf['moved']]
+        if f == 0.0:
+            if sorted(used) != list(range(n)):
+                from collections import Counter
+                c = Counter(used)
+                dup = [j for j, k in c.items() if k > 1][:5]
+                miss = [j for j in range(n) if j not in c][:5]
+                probs.append(f'not exactly once: duplicated {dup} missing {miss} (n={n}, used {len(used)})')
+        else:
+            if set(used) != set(range(n)):
+                probs.append('with overlap: some sample is in no leaf')
+        # the caller's validation points are ROUTED: at every split each of them goes to exactly one child
+        from collections import Counter
+        for nd in xr.walk(root):
+            if nd['kind'] != 'leaf' and len(nd['children']) == 2:
+                par = Counter(nd['Xval'][j].numpy().tobytes() for j in range(nd['Xval'].shape[0]))
+                ch = Counter()
+                for cnode in nd['children']:
+                    ch.update(cnode['Xval'][j].numpy().tobytes() for j in range(cnode['Xval'].shape[0]))
+                if par != ch:
+                    probs.append(f"validation points lost or duplicated at a split: node had {sum(par.values())}, children have {sum(ch.values())}")
+        nsplit = sum(1 for nd in xr.walk(root) if nd['kind'] != 'leaf')
+        ck.case(dict(desc, leaves=[(len(l['ids']), len(l['kept']), len(l['moved']), l['nval']) for l in leaves]),
+                nontrivial=(nsplit >= 1 and any_refill), sample=(nsplit >= 2 and any_refill))
+        ck.count(f'splits={min(nsplit, 8)}'); ck.count(f'refill={refill}'); ck.count(f'nval={nv}'); ck.count(f'task={task}')
+        ck.count('any_refill' if any_refill else 'no_refill')
+        if empty_val:
+            ck.count('fits with an empty leaf validation set (outside the proviso; scored on own rows)')
+        for p_ in dict.fromkeys(probs):
+            ck.violation(p_ + f' on {desc}', dict(desc, problem=p_, leaves=[dict(recv=l['ids'], kept=l['kept'], moved=l['moved'], nval=l['nval']) for l in leaves]),
+                         key=json.dumps(dict(site='accounting', problem=p_.split(' ')[0:4])))
+        if f == 0.0:
+            cases.append((f'{cid}.{bi}', f'rtree_okb true {refill} {coq_rtree(root)}'))
+        else:
+            parts = [f"leaf_okb {coq_bool(root['kind'] == 'leaf')} {refill} {nl(l['ids'])} {nl(l['kept'])} {nl(l['moved'])} {l['nval']}" for l in leaves]
+            cases.append((f'{cid}.{bi}', ' && '.join(parts)))
+        meta[f'{cid}.{bi}'] = dict(desc, build=bi)
+        out.append([(len(l['ids']), len(l['kept']), len(l['moved']), l['nval']) for l in leaves])
+    return out
+
+
+BOUNDARY_METHODS = ['fixed_vector', 'random', 'pca', 'top_vector_agop_on_subset', 'rf_criterion', 'random_pca', 'linear', 'random_agop_on_subset', 'random_global_agop']
+
+
+def boundary_regime(ck, xr, rng, cases, meta):
+    """The corners of the refill bound  min(max(refill_size - routed, 0), 20% of the leaf):  the refill size is placed AT a leaf's number of routed validation
+    points (shortfall exactly 0: "none moved" — the inclusive end of the refill test), one below / one above it, and at / next to the point where the shortfall meets
+    the 20% cap.  The routed count of a leaf is not known before the tree is built, so every configuration is fitted twice or more: a probe fit (default refill size
+    1500) records how many of the caller's validation points each leaf receives, then the same data / seeds / options are refitted with refill_size = routed + s for the
+    corner shortfalls s.  The splits made before the first leaf (build order) cannot depend on the refill size, so for the first leaf the corner is hit by construction;
+    for later leaves it is hit whenever the split method draws no random numbers (counted).  Every refit goes through the same statement-level accounting as all fits."""
+    nb = ck.n(8, 54)
+    hits = 0
+    for b in range(nb):
+        method = BOUNDARY_METHODS[b % len(BOUNDARY_METHODS)]
+        task = ['reg', 'class', 'reg2'][(b + b // 3) % 3]
+        # leaves of 4..6 samples (20% rounds to 0 / 1), ~10 (20% = 1..2), and larger ones
+        L = [12, 6, 30, 5, 20, 10, 40, 8][b % 8] if b % 16 != 11 else 4
+        depth_mult = [2, 4, 8, 3][(b // 2) % 4]
+        n = int(rng.integers(L * depth_mult // 2 + 1, L * depth_mult + 1))
+        n = max(n, L + 1)                                   # at least one split: the refill rule applies to non-root leaves only
+        d = int(rng.integers(2, 5))
+        nv = [40, 12, 150, 25, 6, 80][b % 6]                # from a few to abundant routed validation points per leaf
+        f = 0.1 if b % 7 == 5 else 0.0
+        tree_iters = 1 if method == 'random_global_agop' else 0
+        tied = method in ('rf_criterion', 'fixed_vector')
+        X = xr.make_X('distinct_grid' if (b % 2 or tied) else 'random', n, d, rng)
+        kwm = {}
+        if method == 'fixed_vector':
+            fv = np.zeros(d, dtype=np.float32); fv[(b // 9) % d] = 1.0
+            kwm['fixed_vector'] = torch.tensor(fv)
+        y = xr.make_y(task, X, rng)
+        Xv = xr.make_X('distinct_grid' if tied else 'random', nv, d, rng)
+        if tied:
+            Xv[:, 0] = Xv[:, 0] * (n / nv) + 1.0 / 16.0      # spread over the range of the training coordinate, off the training grid (rows stay distinct from training rows)
+        yv = xr.make_y(task, Xv, rng)
+        Xt, yt = torch.tensor(X), torch.tensor(y)
+
+        def fit(refill, cid, extra):
+            desc = dict(i=f'b{b}', regime='refill size at / next to the routed count of a leaf', task=task, n=n, L=L, d=d, refill=refill, nval=nv, f=f, method=method,
+                        tree_iters=tree_iters, tied_projections=tied, constant_direction=False, agop_budget=None, n_trees=1, seed=ck.seed, **extra)
+            xr.seed_all(7700 + b + ck.seed)
+            model = xr.xRFM(rfm_params=xr.default_rfm_params(iters=(1 if tree_iters else 0), reg=1e-2), max_leaf_size=L, split_method=method, overlap_fraction=f, verbose=False,
+                            use_temperature_tuning=False, refill_size=refill, n_tree_iters=tree_iters, n_trees=1, **kwm)
+            rec = xr.fit_recorded(model, Xt, yt, torch.tensor(Xv), torch.tensor(yv), timeout=120, tolerate_empty_val=True)
+            if rec.error is not None:
+                ck.notes.append(f'fit error {rec.error} on {desc}')
+                ck.violation(f'fit did not return ({rec.error}) on {desc}', dict(desc, error=rec.error), key=json.dumps(dict(site='fit', error=rec.error[0])))
+                return None
+            return account(ck, xr, rec, model, desc, yt, cases, meta, cid)
+
+        probe = fit(1500, f'b{b}.p', dict(probe=True))
+        if not probe or len(probe[0]) < 2:
+            ck.count('boundary regime: probe fit has a single leaf (no refill to place)')
+            continue
+        leaves0 = probe[0]                                  # first build of the tree
+        t = 0 if b % 2 == 0 else (b // 2) % len(leaves0)    # even: the first leaf (reproduced by construction); odd: any leaf
+        # received samples and routed validation points of the target leaf
+        m0, c0 = leaves0[t][0], leaves0[t][3]
+        q = m0 // 5
+        shortfalls = [0] + list([(-1, 1), (q, q + 1), (1, q - 1)][b % 3])
+        for s in dict.fromkeys(shortfalls):
+            refill = c0 + s
+            if refill < 1:
+                continue                                     # the property quantifies over refill sizes from 1
+            got = fit(refill, f'b{b}.s{s}'.replace('-', 'm'), dict(probe=False, target_leaf=t, target_received=m0, target_routed=c0, shortfall=s))
+            if not got:
+                continue
+            reproduced = len(got[0]) > t and got[0][t][0] == m0 and got[0][t][3] == c0
+            ck.count('boundary regime: target leaf reproduced' if reproduced else 'boundary regime: target leaf not reproduced (random split method, later leaf)')
+            for (m, k, mv, c) in got[0]:
+                if c == refill:
+                    hits += 1; ck.count(f'boundary regime: leaf with routed == refill size ({"leaf >= 5" if m >= 5 else "leaf < 5"})')
+                elif refill - c == m // 5 and m >= 5:
+                    ck.count('boundary regime: leaf with shortfall == 20% cap')
+                elif abs(refill - c) == 1:
+                    ck.count('boundary regime: leaf with |shortfall| == 1')
+    ck.notes.append(f'boundary regime: {hits} leaves received exactly refill_size routed validation points')
+
+
 def run(ck):
     from harness import xr
     ck.rule = ('real xRFM.fit with a recording RFM subclass and a recording wrapper around _build_tree; rows pairwise distinct so every '
@@ -101,110 +293,8 @@ def run(ck):
             ck.violation(f'fit did not return ({rec.error}) on {desc}', dict(desc, error=rec.error),
                          key=json.dumps(dict(site='fit', error=rec.error[0])))
             continue
-        for bi, root in enumerate(rec.trees):      # every build: with tree iterations each tree is built 1 + n_tree_iters times
-            Xroot = root['X']
-            lookup = {Xroot[j].numpy().tobytes(): j for j in range(Xroot.shape[0])}
-            Yenc = rec.rfms and None
-            probs = []
-            leaves = xr.leaves_of(root)
-            # the encoded targets the root received: recover from the leaf fits (y rows are aligned iff they match by index)
-            any_refill = False
-            empty_val = False
-            for lf in leaves:
-                rfm = lf['rfm']
-                Xtr, ytr = rfm.rec_train
-                Xva, yva = rfm.rec_val
-                if rfm.rec_empty_val:
-                    empty_val = True
-                kept_rows = [lookup.get(Xtr[p].numpy().tobytes()) for p in range(Xtr.shape[0])]
-                if kept_rows != lf['kept']:
-                    probs.append(f"leaf train_indices {lf['kept'][:6]}.. are not the rows of the fitted training matrix {kept_rows[:6]}..")
-                cen = rfm.centers
-                if cen.shape != Xtr.shape or not torch.equal(cen.cpu(), Xtr):
-                    probs.append('leaf model centers differ from the training rows it was fitted on')
-                nrouted = lf['nval']
-                if not torch.equal(Xva[:nrouted], lf['Xval']):
-                    probs.append('leaf validation set does not start with the routed validation points')
-                moved = [lookup.get(Xva[p].numpy().tobytes()) for p in range(nrouted, Xva.shape[0])]
-                if any(m is None for m in moved):
-                    probs.append('leaf validation set contains rows that are neither routed validation points nor training samples')
-                    moved = [m for m in moved if m is not None]
-                lf['moved'] = moved
-                any_refill |= len(moved) > 0
-                # statement: at most min(shortfall, 20%) moved; none if routed > refill size or single leaf
-                m_recv = len(lf['ids'])
-                if root['kind'] == 'leaf':          # the tree has a single leaf (structural, not the flag the code was passed)
-                    exp = 0
-                elif nrouted > refill:
-                    exp = 0
-                else:
-                    exp = min(refill - nrouted, m_recv // 5)
-                if len(moved) > exp:
-                    probs.append(f'leaf with {m_recv} samples and {nrouted} routed validation points moved {len(moved)} samples, at most {exp} are allowed (refill size {refill})')
-                elif len(moved) != exp:
-                    # fewer than the rule allows: not a violation of the statement ("at most"); the Coq checker below (a model of the code's rule) will disagree
-                    ck.count('leaf moved fewer samples than the refill rule allows')
-                if set(moved) & set(lf['kept']):
-                    probs.append(f'samples {sorted(set(moved) & set(lf["kept"]))[:5]} are both centers and leaf validation')
-                if sorted(moved + lf['kept']) != sorted(lf['ids']):
-                    probs.append(f'leaf received {m_recv} samples but centers+moved account for {len(moved) + len(lf["kept"])} (dropped or foreign samples)')
-                # targets aligned: y rows of kept/moved must be the encoded targets of the same original rows.
-                lf['y_by_index'] = {j: ytr[p] for p, j in enumerate(kept_rows) if j is not None}
-                for p, j in enumerate(moved):
-                    lf['y_by_index'][j] = yva[nrouted + p]
-            # cross-leaf target consistency: with exactly-once (or overlap) the encoded target of index j is unique
-            ymap = {}
-            for lf in leaves:
-                for j, v in lf['y_by_index'].items():
-                    if j in ymap and not torch.equal(ymap[j], v):
-                        probs.append(f'sample {j} carries different targets in different leaves')
-                    ymap[j] = v
-            if task.startswith('reg'):
-                for j, v in ymap.items():
-                    if not torch.equal(v.reshape(-1), yt[j].reshape(-1).float()):
-                        probs.append(f'target of sample {j} is misaligned'); break
-            else:
-                enc = model.class_converter_.labels_to_numerical(yt)
-                for j, v in ymap.items():
-                    if not torch.equal(v.reshape(-1), enc[j].reshape(-1)):
-                        probs.append(f'target of sample {j} is misaligned'); break
-            used = [j for lf in leaves for j in lf['kept'] + lf['moved']]
-            if f == 0.0:
-                if sorted(used) != list(range(n)):
-                    from collections import Counter
-                    c = Counter(used)
-                    dup = [j for j, k in c.items() if k > 1][:5]
-                    miss = [j for j in range(n) if j not in c][:5]
-                    probs.append(f'not exactly once: duplicated {dup} missing {miss} (n={n}, used {len(used)})')
-            else:
-                if set(used) != set(range(n)):
-                    probs.append('with overlap: some sample is in no leaf')
-            # the caller's validation points are ROUTED: at every split each of them goes to exactly one child
-            from collections import Counter
-            for nd in xr.walk(root):
-                if nd['kind'] != 'leaf' and len(nd['children']) == 2:
-                    par = Counter(nd['Xval'][j].numpy().tobytes() for j in range(nd['Xval'].shape[0]))
-                    ch = Counter()
-                    for cnode in nd['children']:
-                        ch.update(cnode['Xval'][j].numpy().tobytes() for j in range(cnode['Xval'].shape[0]))
-                    if par != ch:
-                        probs.append(f"validation points lost or duplicated at a split: node had {sum(par.values())}, children have {sum(ch.values())}")
-            nsplit = sum(1 for nd in xr.walk(root) if nd['kind'] != 'leaf')
-            ck.case(dict(desc, leaves=[(len(l['ids']), len(l['kept']), len(l['moved']), l['nval']) for l in leaves]),
-                    nontrivial=(nsplit >= 1 and any_refill), sample=(nsplit >= 2 and any_refill))
-            ck.count(f'splits={min(nsplit, 8)}'); ck.count(f'refill={refill}'); ck.count(f'nval={nv}'); ck.count(f'task={task}')
-            ck.count('any_refill' if any_refill else 'no_refill')
-            if empty_val:
-                ck.count('fits with an empty leaf validation set (outside the proviso; scored on own rows)')
-            for p_ in dict.fromkeys(probs):
-                ck.violation(p_ + f' on {desc}', dict(desc, problem=p_, leaves=[dict(recv=l['ids'], kept=l['kept'], moved=l['moved'], nval=l['nval']) for l in leaves]),
-                             key=json.dumps(dict(site='accounting', problem=p_.split(' ')[0:4])))
-            if f == 0.0:
-                cases.append((f'{i}.{bi}', f'rtree_okb true {refill} {coq_rtree(root)}'))
-            else:
-                parts = [f"leaf_okb {coq_bool(root['kind'] == 'leaf')} {refill} {nl(l['ids'])} {nl(l['kept'])} {nl(l['moved'])} {l['nval']}" for l in leaves]
-                cases.append((f'{i}.{bi}', ' && '.join(parts)))
-            meta[f'{i}.{bi}'] = dict(desc, build=bi)
+        account(ck, xr, rec, model, desc, yt, cases, meta, str(i))
+    boundary_regime(ck, xr, rng, cases, meta)
     res = ck.run_bool_cases('acct', HEADER, cases, shard=25)
     bad = [meta[k] for k, v in res.items() if v is not True]
     ck.obligation(f'correspondence: recorded trees of {len(cases)} real fits pass the Coq local checker rtree_okb', 'correspondence',
